@@ -80,7 +80,7 @@ def stream_histories(ctx, built, count, name="S-blob"):
         for ci in range(count):
             # blob names: plain, and names with characters that are special to glob / fnmatch / regular expressions
             bname = R.choice(["b", "b", "census[2021]", "a*b", "q?x", "v1.0 (final)", "x+y"]) if ci >= 3 else ["b", "census[2021]", "b"][ci]
-            same_cols = R.random() < (0.5 if bname == "b" else 0.2) and ci != 1
+            same_cols = R.random() < (0.5 if bname == "b" else 0.2) and ci not in (1, 5, 6, 9, 10)      # directed leftovers histories need different column sets
             d1 = gen_dataset(R, 1); d2 = gen_dataset(R, 2, ncols=len(d1[0].columns) if same_cols else None)
             if same_cols:
                 d2[0].columns = d1[0].columns
